@@ -1,7 +1,7 @@
 """C09 — inferred types agree with Gleam's typing (kernel: union-find, unifier with label reordering, freezing)."""
 import os, json
 from mirsym import explore, native
-from . import unifier, kaniuf
+from . import unifier, kaniuf, termk
 from .runner import Check
 
 BOUNDS = {'quick': {'kani': (4, 3), 'labels': 2, 'tables': 2}, 'thorough': {'kani': (5, 4), 'labels': 3, 'tables': 3}}
@@ -84,6 +84,12 @@ def run_kernel(chk, tier, jobs, props):
         chk.add_run('infer_pattern on a constructor pattern: %d fields (labels from {none,a,b}, unlabelled first), %d sub-patterns (positional first, then labelled)' % (mm, kk), res, complete,
                     {'fields': mm, 'sub_patterns': kk}, nontrivial_classes=lambda c: c.startswith('bound') or c.startswith('ill-formed'))
         found += [v for v in res.violations if any(w.startswith(tuple(props)) for w in v['why'])]
+    from . import termk
+    for t in termk.QUICK + (termk.THOROUGH if tier != 'quick' else []):
+        res, complete = explore.explore(termk.factory, (t,), jobs=jobs if t in ('binary-chain', 'nested-block', 'call-param', 'lambda-case') else 1)
+        chk.add_run('infer_function on the body template %s built as arena data: literal kinds, operators and tuple indices symbolic; every slot assignment a path admits is typed by the reference checker' % t, res, complete,
+                    {'template': t, 'slots': termk.slots_of(termk.TEMPLATES[t])}, nontrivial_classes=lambda c: c == 'typed')
+        found += [v for v in res.violations if any(w.startswith(tuple(props)) for w in v['why'])]
     from . import deporder
     deporder.W = unifier.W
     for nv in (1, 2) if tier == 'quick' else (1, 2, 3):
@@ -135,6 +141,15 @@ def main(tier, seed):
             if key in seen:
                 continue
             seen.add(key)
+            if v.get('cex', {}).get('template'):
+                # a term-kernel finding carries its slot assignment: render it, hover on the function and on every binder
+                from . import termk
+                w = termk.native_witness(oracle, v['cex']['template'], v['cex']['assign'])
+                if w:
+                    chk.violation('infer-term:' + v['cex']['template'], 'bounded', '%s; public API: %s' % (v['why'][0][:500], w[:500]), v['cex'], confirmed=True)
+                else:
+                    chk.inconclusive.append('term kernel: %s - but hover on %r shows the types Gleam assigns' % (v['why'][0][:300], v['cex'].get('program')))
+                continue
             if v.get('cex', {}).get('expect'):
                 # a constructor-pattern finding carries its own program: hover on every pattern variable
                 w = pattern_witness(oracle, v['cex'])
@@ -149,6 +164,26 @@ def main(tier, seed):
                 chk.inconclusive.append('unifier kernel: %s - the public-API corpus (%d programs) shows no wrong type, not reported as a violation' % (v['why'][0][:300], len(CORPUS)))
         okc = len(CORPUS) - len(native_corpus(oracle)) if not found else 0
         chk.validated += okc
+        # native layer (executed, not a solver verdict): every slot assignment of every template as Gleam text through the public API
+        from . import termk
+        import itertools
+        ops = termk.op_variants(); nprog = nbad = 0
+        for t in termk.QUICK + (termk.THOROUGH if tier != 'quick' else []):
+            slots = termk.slots_of(termk.TEMPLATES[t])
+            doms = [range(3) if s_[0] == 'k' else (ops + [None]) if s_[0] == 'o' else range(4) for s_ in slots]
+            for vals in itertools.product(*doms):
+                a = dict(zip(slots, vals)); nprog += 1
+                w = termk.native_witness(oracle, t, a)
+                if w:
+                    nbad += 1
+                    if nbad <= 3:
+                        chk.violation('typed-program:' + t, 'enumerated', 'C09: %s' % w[:700], {'template': t, 'assign': a, 'program': termk.render(t, a)}, confirmed=True)
+                    if 'died' in w:
+                        oracle.close(); oracle = native.Oracle(native.build('oracle-ide'))
+                else:
+                    chk.validated += 1
+        chk.log('native layer: %d rendered programs (every slot assignment of %d templates), hover on the function and every binder vs the reference checker: %d differ' % (nprog, len(termk.QUICK), nbad))
+        chk.extra['native_oracle'] = {'typed_programs': nprog, 'differ': nbad}
     finally:
         oracle.close(); unifier.W.cleanup()
     chk.assumptions += [
@@ -158,9 +193,11 @@ def main(tier, seed):
         'constructor-pattern kernel: InferCtx::infer_pattern (real MIR, real table) on C(p.., l: p..) built as arena data, resolve_variant answered with m <= 3 fields whose labels the solver chooses (unlabelled first), positional sub-patterns first; reference: the i-th positional sub-pattern binds field i, a labelled one the field of its label',
         'dependency-order kernel: dependency_order_query on its real MIR with the database havoc\'d and one function body of <= 2 (thorough 3) identifier expressions: every non-self edge must come from resolve_name on a resolver built by resolver_for_expr for that very expression; the SCC computation (petgraph) is not executed',
         'reference for label reordering: labelled parameters are paired by label in any order, the remaining ones by position; parameter mismatches do not fail the unification, the return type does (as the code documents)',
+        'term kernel: InferCtx::infer_function (real MIR of infer_stmts / infer_expr / infer_pattern, the unifier and the union-find) on %d body templates built as arena data (let / use / case / lambda / pipe / call / tuple / list / spread, patterns: tuple, list + spread, as, string prefix, alternatives); symbolic: each literal\'s kind, each binary operator (None or any BinaryOpKind), tuple indices; per path the solver enumerates every slot assignment the path condition admits and an independent Hindley-Milner checker written from Gleam\'s rules gives the principal types of parameters, binders and result, compared modulo renaming of unknowns; ill-typed assignments must only return and leave every pattern / queried expression with a type entry. Stubs: resolver_for_expr / Resolver::resolve_name answer by unique binder name (scoping is the C05 kernel), resolve_type / resolve_module find nothing, the database is opaque' % len(termk.QUICK + (termk.THOROUGH if tier != 'quick' else [])),
+        'native layer (executed, not a solver verdict): every slot assignment of every template rendered as Gleam text; hover on the function name and on every binder through ide::Analysis must show the reference types modulo renaming (this runs the parser, lowering, scopes and display as well)',
         'kernel findings are reported only if a public-API corpus of typed programs (hover) shows a wrong type or a crash as well']
     chk.trusted += ['rustc MIR', 'mirsym interpreter + models (Vec, Option, itertools::find_position, HashMap as association list, Arc transparent)', 'z3', 'Kani 0.68 / CBMC 6.11 (union-find)']
-    return chk.finish({'kani': {k2: v for k2, v in kr.items() if k2 != 'raw_tail'}})
+    return chk.finish({'kani': {k2: v for k2, v in kr.items() if k2 != 'raw_tail'}, 'native_oracle': chk.extra.get('native_oracle', {})})
 
 
 def replay(path):
